@@ -32,7 +32,7 @@ def main():
     checks, na, hook_commits = load()
     m = {
         "version": 1,
-        "setup_cmd": "cd lean && lake build NumbersModel nmdriver",
+        "setup_cmd": "cd lean && lake build NumbersModel nmdriver trdriver",
         "hooks": {
             "guard": "NUMBERS_PARSER_VERIF",
             "enable": "NUMBERS_PARSER_VERIF=1 in the environment of the check (set by harness/common.py); no build step, /repo/src is imported in-process",
@@ -44,7 +44,7 @@ def main():
             "name": "lean4+correspondence",
             "path": "harness/vcheck.py",
             "serves_properties": sorted(checks),
-            "kind_free_text": "Lean 4 theorems about hand-written executable models (lean/NumbersModel), models tied to /repo by differential correspondence through a compiled line-protocol driver (lean/Driver.lean) and by regenerated constants",
+            "kind_free_text": "Lean 4 theorems about hand-written executable models (lean/NumbersModel), models tied to /repo by differential correspondence through a compiled line-protocol driver (lean/Driver.lean), by regenerated constants, and - for the functions listed in harness/py2lean.py TARGETS - by definitions translated from the Python source on every run and proved equal to the model",
         }],
         "checks": [],
         "notes": "See DESIGN.md. Known findings: known_findings.json. Seeded breaking changes used to test the checks: seeded/.",
